@@ -83,8 +83,8 @@ Theorem C14_checker_sound :
   forall tc, type_ok tc = true ->
   let t := tc_in tc in let out := tc_out tc in
   NoDup out /\ incl out (map f_id (t_feats t)) /\
-  (t_ms t <> [] ->
-     (List.length out <= t_nbest t * List.length (t_ms t))%nat /\
+  (last_assoc (t_ms t) <> None ->
+     (List.length out <= t_nbest t * List.length (assoc_idx (t_ms t)))%nat /\
      forall f, In f (t_filters t) ->
        ForallOrdPairs (fun a b => fst (assoc_at f a b) <= fl_thresh f) out).
 Proof. exact type_ok_sound. Qed.
@@ -92,7 +92,7 @@ Print Assumptions C14_checker_sound.
 
 (* hypotheses are satisfiable: a concrete selection with two features kept and one filtered *)
 Example C14_nonvacuous :
-  let t := mkTin 10 (999, 1000) (999, 1000) 2%nat [mkM true false 0 0]
+  let t := mkTin 10 (999, 1000) (999, 1000) 2%nat [mkM true false false 0 0]
              [mkFeat 0 0 3 [mkRaw false false false 7] [Some 7];
               mkFeat 1 0 3 [mkRaw false false false 9] [Some 9];
               mkFeat 2 0 3 [mkRaw false false false 8] [Some 8]]
